@@ -4,9 +4,9 @@ from . import common as C
 from . import numgen
 
 MANIFEST = dict(
-   technique="Lean 4 proof (soundness of the transcribed ToInt64/ToInteger[T]/ToFloat64/ToFloat[T]/ToBool/ToBigInt/To[T] and of the coercing-schema pipeline over all of Int and all dyadic floats) + differential correspondence of that model against pkg/coerce and the gozod/coerce schemas, judged by a math/big oracle",
-   text="Theorems c17_int64_sound / c17_integer_sound (all ten integer targets) / c17_bigint_sound prove that a successful coercion returns exactly the value the source denotes and lands in the target's range; c17_int64_err / c17_integer_err prove that NaN, infinite, fractional, out-of-range and negative-to-unsigned sources are errors; c17_int_to_f64_nearest / c17_int_to_f64_exact / c17_f32_no_inf / c17_float64_finite cover float targets (correctly rounded, exact below 2^53, a finite source never becomes Inf); c17_bool_table the truthy table; c17_schema / c17_schema_exact_first the schema pipeline. The hand-written model (of the code after pending/C17-coerce-guards.diff) is tied to /repo by running both on exhaustive 8-bit (thorough: 16-bit) sources and a boundary grid over every (source kind, target) pair, through every helper and through coercing schemas with a check.",
-   note="Trusted: Lean kernel; axioms propext/Classical.choice/Quot.sound only; the Go harness, its math/big oracle and the comparer; strconv.ParseInt/ParseFloat/FormatFloat, big.Int.SetString, strings.TrimSpace/ToLower enter the model as parameters whose results the harness ships with each case (their correctness is assumed, cross-checked against math/big on the generated cases only). amd64 semantics of int64(float). The model is a hand transcription validated on generated cases, not for all inputs. ToFloat64 of a complex source returns the magnitude (open known finding complex-magnitude, witness theorem complex_magnitude_witness). Time and []byte sources and complex/time targets are outside the property and not modelled. Spurious failures (e.g. uint64 values above MaxInt64, +Inf into float32) are allowed by the statement and only counted.",
+   technique="Lean 4 proof (soundness of the transcribed ToInt64/ToInteger[T]/ToFloat64/ToFloat[T]/ToBool/ToBigInt/To[T] and of the coercing-schema pipeline over all of Int and all dyadic floats) + translator (go/ast over pkg/coerce, coerce, types -> Gen/CoerceDispatch.lean, regenerated on every run; every type switch, guard, range constant and routing of the model is proved equal to the interpreted table for every source) + differential correspondence of that model against pkg/coerce and the gozod/coerce schemas, judged by a math/big oracle",
+   text="Theorems c17_int64_sound / c17_integer_sound (all ten integer targets) / c17_bigint_sound prove that a successful coercion returns exactly the value the source denotes and lands in the target's range; c17_int64_err / c17_integer_err prove that NaN, infinite, fractional, out-of-range and negative-to-unsigned sources are errors; c17_int_to_f64_nearest / c17_int_to_f64_exact / c17_f32_no_inf / c17_float64_finite cover float targets (correctly rounded, exact below 2^53, a finite source never becomes Inf); c17_bool_table the truthy table; c17_schema / c17_schema_exact_first the schema pipeline. The model is tied to /repo by translation (C17D.*_table: ToInt64/ToFloat64/ToBool/ToString/ToBigInt/ToInteger/toFloat32 switches, floatToInt64 and checkIntegerTypeBounds constants, To[T] and schema routing, truthy words, case_types_known: a new source type or a re-routed clause is a failed obligation) and by running both on exhaustive 8-bit (thorough: 16-bit) sources and a boundary grid over every (source kind, target) pair, through every helper and through coercing schemas with a check.",
+   note="Trusted: Lean kernel; axioms propext/Classical.choice/Quot.sound only; the Go harness, its math/big oracle and the comparer; strconv.ParseInt/ParseFloat/FormatFloat, big.Int.SetString, strings.TrimSpace/ToLower enter the model as parameters whose results the harness ships with each case (their correctness is assumed, cross-checked against math/big on the generated cases only). amd64 semantics of int64(float). Primitives (int64(f), float32(f), big.Int.Float64) and five raw clauses are validated on generated cases, not for all inputs; the translator harness/numgen is trusted. ToFloat64 of a complex source returns the magnitude (open known finding complex-magnitude, witness theorem complex_magnitude_witness). Time and []byte sources and complex/time targets are outside the property and not modelled. Spurious failures (e.g. uint64 values above MaxInt64, +Inf into float32) are allowed by the statement and only counted.",
    design="DESIGN.md §5 C17, §3.6; notes/C17.md")
 
 MODULES = ["Gozod.Proofs.C17", "Gozod.Proofs.C17Dispatch"]
